@@ -178,7 +178,7 @@ def check_assumptions(pid, props_files, theorems, allowed, work):
 
 class Part:
     FIELDS = ['NAME', 'CORR_REQUIRE', 'CORR_CASE_TYPE', 'CORR_CHECK', 'SHARD', 'gen_cases', 'run_impl',
-              'coq_case', 'oracle', 'signature', 'nontrivial', 'shrink', 'RULE', 'IMPL_TIMEOUT', 'IMPL_JOBS', 'CORR_SHOW']
+              'coq_case', 'oracle', 'signature', 'nontrivial', 'shrink', 'RULE', 'IMPL_TIMEOUT', 'IMPL_JOBS', 'CORR_SHOW', 'BORROWED_FROM']
 
     def __init__(self, obj, idx):
         self.idx = idx
@@ -257,6 +257,11 @@ def model_batch(part, cases, obs, work, tag='corr'):
         files.append((k, p))
     with ThreadPoolExecutor(NCPU) as ex:
         outs = list(ex.map(lambda kp: coqc(kp[1], 1200), files))
+    # a shard that died without a Coq error message (killed by the OOM killer / a signal on a loaded machine) is retried
+    # alone, once; a genuine Coq error (type error in a literal, anomaly) is reported as before
+    for n, ((k, p), (rc, out)) in enumerate(zip(files, outs)):
+        if rc != 0 and not re.search(r'\bError\b|Anomaly', out):
+            outs[n] = coqc(p, 2400)
     bad, errs = list(bad0), []
     for (k, p), (rc, out) in zip(files, outs):
         m = re.search(r'=\s*\[(.*?)\]\s*:\s*list nat', out, re.S)
@@ -321,9 +326,32 @@ def load_corpus(pid, part):
     return out
 
 
-def shrink_case(modname, part, case, obs, msg, work, budget=40):
+def sig_of(part, c, o, msg):
+    if isinstance(o, dict) and 'crash' in o and msg.startswith(CRASH_PREFIX):
+        return 'crash/%s/%s' % (part.NAME, o.get('crash'))
+    try:
+        return part.signature(c, o, msg) if part.signature else 'any'
+    except Exception as e:
+        return 'signature-raised/%s/%s' % (part.NAME, type(e).__name__)
+
+
+CRASH_PREFIX = 'unexpected exception '
+
+
+def judge(part, c, o):
+    """The part's oracle plus the uniform rule for crash observations: an exception that run_impl did not map to an
+    expected error (or a per-case timeout) is never silently accepted."""
+    msg = part.oracle(c, o) if part.oracle else None
+    if not msg and isinstance(o, dict) and 'crash' in o and o.get('crash') != 'HarnessFailure':
+        msg = CRASH_PREFIX + '%s from the implementation (not an error the property allows for this input): %s' % (
+            o.get('crash'), str(o.get('msg', ''))[:300])
+    return msg
+
+
+def shrink_case(modname, part, case, obs, msg, work, budget=40, known=()):
     if not part.shrink:
         return case, obs, msg
+    sig0 = sig_of(part, case, obs, msg)
     rounds = 0
     while rounds < budget:
         rounds += 1
@@ -333,14 +361,71 @@ def shrink_case(modname, part, case, obs, msg, work, budget=40):
         cobs = impl_batch(modname, part, cands, work, tag='shrink')
         nxt = None
         for c, o in zip(cands, cobs):
-            m = part.oracle(c, o)
-            if m:
+            try:
+                m = judge(part, c, o)
+            except Exception:
+                m = None
+            # a smaller candidate is accepted only when it fails for the SAME reason (never drift into another
+            # defect, a known finding, or an input outside the valid domain)
+            if m and sig_of(part, c, o, m) == sig0:
                 nxt = (c, o, m)
                 break
         if not nxt:
             break
         case, obs, msg = nxt
     return case, obs, msg
+
+
+def dump_replay(rec, rp):
+    os.makedirs(os.path.dirname(rp), exist_ok=True)
+    json.dump(rec, open(rp, 'w'), indent=1, default=str)
+
+
+def is_tie_file(f):
+    return os.path.basename(f).startswith('SRC')
+
+
+def th_names_in(files):
+    out = []
+    for f in files:
+        pth = os.path.join(COQ, f)
+        if os.path.exists(pth):
+            txt = re.sub(r'\(\*.*?\*\)', ' ', open(pth).read(), flags=re.S)
+            out += re.findall(r'^\s*(?:Theorem|Lemma|Corollary|Proposition|Fact)\s+([A-Za-z_][\w\']*)', txt, re.M)
+    return out
+
+
+def eval_part(modname, part, cases, work, build_ok, tag_impl='impl', tag_corr='corr'):
+    """implementation + model + oracle on a list of cases -> (obs, bad indices, harness errors, oracle failures)"""
+    obs = impl_batch(modname, part, cases, work, tag=tag_impl)
+    # a per-case timeout / runner failure is retried once, alone, with a longer limit (a loaded machine is not a violation)
+    redo = [i for i, o in enumerate(obs) if isinstance(o, dict) and o.get('crash') in ('Timeout', 'HarnessFailure')]
+    if redo and len(redo) <= 40:
+        old = part.IMPL_TIMEOUT
+        part.IMPL_TIMEOUT = 4 * (old or 20)
+        try:
+            for i in redo:
+                obs[i] = impl_batch(modname, part, [cases[i]], work, tag=tag_impl + 'retry')[0]
+        finally:
+            part.IMPL_TIMEOUT = old
+    errs = []
+    harness_crash = [i for i, o in enumerate(obs) if isinstance(o, dict) and o.get('crash') == 'HarnessFailure']
+    if harness_crash:
+        errs.append('implementation runner failed: ' + str(obs[harness_crash[0]].get('msg')))
+    bad = []
+    if build_ok:
+        bad, e2 = model_batch(part, cases, obs, work, tag=tag_corr)
+        errs += ['model evaluation failed: ' + e for e in e2]
+    fails = []
+    for c, o in zip(cases, obs):
+        try:
+            msg = judge(part, c, o)
+        except Exception as e:   # an oracle that cannot judge is a harness fault, reported loudly
+            msg = None
+            errs.append('oracle raised %s: %s' % (type(e).__name__, e))
+        if msg:
+            fails.append((part, c, o, msg))
+    return obs, bad, errs, fails
 
 
 def run_check(pid, tier, seed, replay=None):
@@ -352,9 +437,16 @@ def run_check(pid, tier, seed, replay=None):
     if not replay:
         shutil.rmtree(work, ignore_errors=True)
     os.makedirs(work, exist_ok=True)
+    # replay files survive the next run (work/<ID> is wiped at every start)
+    rdir = os.path.join(VERIF, 'replays', pid + ('_' + tag if tag else ''))
+    os.makedirs(rdir, exist_ok=True)
+    official = not tag and os.path.realpath(REPO) == os.path.realpath('/repo')
     parts = get_parts(plugin)
-    broken = []          # (kind, name, text)
+    broken = []          # (kind, name, text)   -- hard: the property is no longer shown to hold
+    tie_broken = []      # (kind, name, text)   -- soft: only the source-TRANSLATION tie (Props/SRC*.v, t_src_* tables) is affected;
+    #                       the hand model is then still tied to the code by the correspondence check, which is intensified
     log = []
+    soft_ok = pid != 'SRC'
 
     # 1. translator
     rc, out = regen_tables()
@@ -362,9 +454,18 @@ def run_check(pid, tier, seed, replay=None):
     translator_out = out if rc != 0 else None
 
     # 2. proof obligations
-    props_files = plugin.COQ_PROPS if isinstance(plugin.COQ_PROPS, (list, tuple)) else [plugin.COQ_PROPS]
+    props_files = list(plugin.COQ_PROPS) if isinstance(plugin.COQ_PROPS, (list, tuple)) else [plugin.COQ_PROPS]
+    tie_files = [f for f in props_files if soft_ok and is_tie_file(f)]
+    hard_files = [f for f in props_files if f not in tie_files]
     props_file = props_files[0]
     theorems = list(plugin.THEOREMS)
+    tie_names = set(th_names_in(tie_files))
+    # every theorem stated in a property file is an obligation, listed by the plugin or not
+    for t in th_names_in(hard_files):
+        if t not in theorems:
+            theorems.append(t)
+    tie_theorems = [t for t in theorems if t in tie_names]
+    hard_theorems = [t for t in theorems if t not in tie_names]
     allowed = list(getattr(plugin, 'ALLOWED_AXIOMS', []))
     extra_targets = [t for t in getattr(plugin, 'COQ_EXTRA_TARGETS', [])]
     for part in parts:       # the modules the correspondence shards import must be up to date as well
@@ -372,23 +473,38 @@ def run_check(pid, tier, seed, replay=None):
             rel = mod.replace('.', '/') + '.v'
             if os.path.exists(os.path.join(COQ, rel)) and rel + 'o' not in extra_targets:
                 extra_targets.append(rel + 'o')
-    rc, out = make_targets([f + 'o' for f in props_files] + extra_targets)
+    rc, out = make_targets([f + 'o' for f in hard_files] + extra_targets)
     build_ok = rc == 0
     if not build_ok:
         m = re.findall(r'File "([^"]+)", line (\d+).*?\n(Error:.*?)(?=\nmake|\Z)', out, re.S)
         name = m[0][0] if m else props_file
         broken.append(('broken-obligation', name, out.strip()[-2500:]))
+    tie_build_ok = False
+    if build_ok and tie_files:
+        rc, out = make_targets([f + 'o' for f in tie_files])
+        tie_build_ok = rc == 0
+        if not tie_build_ok:
+            m = re.findall(r'File "([^"]+)", line (\d+).*?\n(Error:.*?)(?=\nmake|\Z)', out, re.S)
+            tie_broken.append(('broken-source-tie', m[0][0] if m else tie_files[0], out.strip()[-2500:]))
     assum, discharged = {}, 0
     if build_ok:
-        assum, fails = check_assumptions(pid, props_files, theorems, allowed, work)
+        assum, fails = check_assumptions(pid, hard_files, hard_theorems, allowed, work)
+        if tie_build_ok:
+            a2, f2 = check_assumptions(pid, tie_files, tie_theorems, allowed, work)
+            assum.update(a2)
+            for f in f2:
+                tie_broken.append(('broken-source-tie', f.split(':')[0], f))
+            fails_all = fails + f2
+        else:
+            fails_all = fails
         for f in fails:
             broken.append(('broken-obligation', f.split(':')[0], f))
-        bad_th = set(re.match(r'theorem (\S+?):? ', f).group(1).rstrip(':') for f in fails if f.startswith('theorem '))
+        bad_th = set(re.match(r'theorem (\S+?):? ', f).group(1).rstrip(':') for f in fails_all if f.startswith('theorem '))
         discharged = len([t for t in theorems if t in assum and t not in bad_th])
     coqchk_report = None
     if build_ok and tier == 'thorough' and replay is None:
         # independent re-check of the compiled theorem files and everything they depend on
-        mods = ' '.join('DV.' + f[:-2].replace('/', '.') for f in props_files)
+        mods = ' '.join('DV.' + f[:-2].replace('/', '.') for f in hard_files + (tie_files if tie_build_ok else []))
         rc2, out2 = sh('coqchk -silent -o -Q %s DV %s' % (COQ, mods), 3000, cwd=COQ)
         m2 = re.search(r'CONTEXT SUMMARY.*', out2, re.S)
         coqchk_report = re.sub(r'\s+', ' ', m2.group(0))[:1500] if m2 else out2.strip()[-800:]
@@ -403,16 +519,22 @@ def run_check(pid, tier, seed, replay=None):
                     bad_ax.append('unsafe: ' + extra.strip()[:200])
             for a in bad_ax:
                 broken.append(('broken-obligation', 'coqchk', 'coqchk reports %s' % a))
+    hard_closure = dep_closure(list(hard_files) + [t[:-1] for t in extra_targets])
     closure = dep_closure(list(props_files) + [t[:-1] for t in extra_targets])
     if translator_out is not None:
         # tables this property depends on: those named by the plugin plus every Generated/T_x.v in the dependency closure
-        mine = set(getattr(plugin, 'TABLES', None) or [])
-        mine |= set('t_' + os.path.basename(f)[2:-2] for f in closure if f.startswith('Generated/T_'))
+        named = set(getattr(plugin, 'TABLES', None) or [])
+        in_hard = set('t_' + os.path.basename(f)[2:-2] for f in hard_closure if f.startswith('Generated/T_'))
+        in_any = set('t_' + os.path.basename(f)[2:-2] for f in closure if f.startswith('Generated/T_'))
         errs = re.findall(r'^TABLE-ERROR (\S+): (.*)$', translator_out, re.M)
-        errs = [e for e in errs if e[0] in mine]
-        if errs or not re.search(r'^TABLE-ERROR', translator_out, re.M):
-            broken.insert(0, ('translator-abort', 'tools/gen_tables.py',
-                              (translator_out.strip() if not errs else '\n'.join('%s: %s' % e for e in errs))[-1500:]))
+        if not re.search(r'^TABLE-ERROR', translator_out, re.M):
+            broken.insert(0, ('translator-abort', 'tools/gen_tables.py', translator_out.strip()[-1500:]))
+        for tname, text in errs:
+            soft = soft_ok and tname.startswith('t_src_') and tname not in in_hard
+            if soft and (tname in in_any or tname in named):
+                tie_broken.insert(0, ('source-translator-abort', tname, '%s: %s' % (tname, text[-1200:])))
+            elif tname in in_hard or (tname in named and not soft):
+                broken.insert(0, ('translator-abort', 'tools/gen_tables.py', '%s: %s' % (tname, text[-1200:])))
     hyg = hygiene(closure)
     for h in hyg:
         broken.append(('broken-obligation', 'hygiene', h))
@@ -425,6 +547,9 @@ def run_check(pid, tier, seed, replay=None):
     stats = []
     oracle_fail, corr_bad, samples = [], [], []
     total_eval, distinct = 0, set()
+    ran_parts = 0
+    if not parts:
+        broken.append(('broken-correspondence', 'plugin', 'the plugin defines no correspondence part'))
     for part in parts:
         rng = random.Random(rng_master.getrandbits(64))
         if replay is not None:
@@ -433,32 +558,21 @@ def run_check(pid, tier, seed, replay=None):
             cases = [replay['case']]
         else:
             cases = load_corpus(pid, part) + list(part.gen_cases(rng, tier))
+            if not cases:
+                broken.append(('broken-correspondence', part.NAME, 'the part generated no case at all'))
+        ran_parts += 1
         tcase = time.time()
-        obs = impl_batch(modname, part, cases, work)
-        timpl = time.time() - tcase
-        harness_crash = [i for i, o in enumerate(obs) if isinstance(o, dict) and o.get('crash') == 'HarnessFailure']
-        if harness_crash:
-            broken.append(('broken-correspondence', part.NAME, 'implementation runner failed: ' + obs[harness_crash[0]]['msg']))
-        tm = time.time()
-        bad, errs = ([], [])
-        if build_ok:
-            bad, errs = model_batch(part, cases, obs, work)
-        tmodel = time.time() - tm
+        obs, bad, errs, fails = eval_part(modname, part, cases, work, build_ok)
+        tall = time.time() - tcase
+        pname = part.NAME + (' (correspondence borrowed from %s)' % part.BORROWED_FROM if part.BORROWED_FROM else '')
         for e in errs:
-            broken.append(('broken-correspondence', part.NAME, 'model evaluation failed: ' + e))
+            broken.append(('broken-correspondence', pname, e))
         for i in bad:
             corr_bad.append((part, cases[i], obs[i]))
+        oracle_fail += fails
         kinds = {}
         for i, (c, o) in enumerate(zip(cases, obs)):
             kinds[c.get('kind', '?')] = kinds.get(c.get('kind', '?'), 0) + 1
-            if part.oracle:
-                try:
-                    msg = part.oracle(c, o)
-                except Exception as e:   # an oracle that cannot judge is a harness fault, reported loudly
-                    msg = None
-                    broken.append(('broken-correspondence', part.NAME, 'oracle raised %s: %s' % (type(e).__name__, e)))
-                if msg:
-                    oracle_fail.append((part, c, o, msg))
             nt = part.nontrivial(c, o) if part.nontrivial else True
             if nt:
                 distinct.add(part.NAME + case_hash(c))
@@ -466,94 +580,136 @@ def run_check(pid, tier, seed, replay=None):
         errkinds = {}
         for o in obs:
             if isinstance(o, dict) and ('err' in o or 'crash' in o):
-                k = o.get('err') or ('crash:' + o.get('crash'))
+                k = o.get('err') or ('crash:' + str(o.get('crash')))
+                k = k if isinstance(k, str) else json.dumps(k, default=str)[:60]
                 errkinds[k] = errkinds.get(k, 0) + 1
         stats.append({'part': part.NAME, 'cases': len(cases), 'kinds': kinds, 'impl_error_kinds': errkinds,
-                      'model_mismatches': len(bad), 'impl_s': round(timpl, 1), 'model_s': round(tmodel, 1)})
-        for c, o in list(zip(cases, obs))[:2] + list(zip(cases, obs))[-1:]:
+                      'model_mismatches': len(bad), 'impl_and_model_s': round(tall, 1)})
+        for c, o in list(zip(cases, obs))[:1] + list(zip(cases, obs))[-1:]:
             samples.append({'part': part.NAME, 'case': c, 'impl_obs': o})
+    if replay is not None and ran_parts == 0:
+        broken.append(('broken-correspondence', 'replay', 'the replay file names part %r which this plugin does not have (or carries no case)' % replay.get('part')))
 
     # 4. verdict
     known = known_open(pid)
-    known_hits, new_fail = {}, []
-    for part, c, o, msg in oracle_fail:
-        sig = part.signature(c, o, msg) if part.signature else 'any'
-        hit = [k for k in known if k[0] == sig]
-        if hit:
-            known_hits.setdefault(sig, hit[0][1])
-        else:
-            new_fail.append((part, c, o, msg, sig))
-    for sig, what in sorted(known_hits.items()):
-        print('KNOWN-FINDING: property=%s %s (sig=%s)' % (pid, what, sig))
-    # a known finding declared open must still be *seen* by the plugin's own reproducer, if it has one
+    known_sigs = set(k[0] for k in known)
+
+    def split_known(fails):
+        hits, new = {}, []
+        for part, c, o, msg in fails:
+            sig = sig_of(part, c, o, msg)
+            if sig in known_sigs:
+                hits.setdefault(sig, 0)
+                hits[sig] += 1
+            else:
+                new.append((part, c, o, msg, sig))
+        return hits, new
+    known_hits, new_fail = split_known(oracle_fail)
     for sig, what in known:
-        if sig not in known_hits and getattr(plugin, 'KNOWN_REPRO', {}).get(sig):
+        if sig in known_hits:
             print('KNOWN-FINDING: property=%s %s (sig=%s)' % (pid, what, sig))
+        elif replay is None:
+            print('note: open finding of %s not observed in this run (sig=%s): if it was repaired upstream, move its line to fixed:' % (pid, sig))
 
     violation = None
-    rp = os.path.join(work, 'replay_%s_%d.json' % (tier, seed))
-    if new_fail:
-        part, c, o, msg, sig = min(new_fail, key=lambda x: len(json.dumps(x[1], default=str)))
+    rp = os.path.join(rdir, 'replay_%s_%d%s.json' % (tier, seed, '_rerun' if replay is not None else ''))
+    tie_note = None
+
+    def write_failing(part, c, o, msg, sig, nfail, extra):
         c, o, msg = shrink_case(modname, part, c, o, msg, work)
         rec = {'property': pid, 'kind': 'failing-input', 'part': part.NAME, 'seed': seed, 'tier': tier, 'case': c,
-               'impl_obs': o, 'oracle_message': msg, 'signature': sig, 'n_failing_inputs': len(new_fail),
-               'also_broken': [b[:2] for b in broken][:10]}
+               'impl_obs': o, 'oracle_message': msg, 'signature': sig, 'n_failing_inputs': nfail,
+               'also_broken': [b[:2] for b in broken + tie_broken][:10]}
+        rec.update(extra)
         if build_ok:
             rec['model_obs'] = model_show(part, c, o, work)
-        json.dump(rec, open(rp, 'w'), indent=1, default=str)
-        violation = (rp, '')
-    elif corr_bad or broken:
-        # SEARCH for a concrete failing input: fresh random cases through the oracle only
-        found = None
-        if replay is None:
-            for rnd in range(1, 4):
-                for part in parts:
-                    if not part.oracle:
-                        continue
-                    cs = list(part.gen_cases(random.Random(seed * 7919 + rnd * 104729 + part.idx), 'quick' if tier == 'quick' else 'thorough'))
+        dump_replay(rec, rp)
+        return (rp, '')
+
+    def search(rounds, with_model):
+        """fresh random cases: oracle (and, for the intensified correspondence, the model) -> failing input / disagreements"""
+        dis, nsearch = [], 0
+        for rnd in rounds:
+            for part in parts:
+                cs = list(part.gen_cases(random.Random(seed * 7919 + rnd * 104729 + part.idx), tier))
+                nsearch += len(cs)
+                if with_model:
+                    ob, bad, errs, fails = eval_part(modname, part, cs, work, build_ok, 'search', 'searchcorr')
+                    dis += [(part, cs[i], ob[i]) for i in bad]
+                    dis += [(part, None, e) for e in errs]
+                else:
                     ob = impl_batch(modname, part, cs, work, tag='search')
+                    fails = []
                     for c, o in zip(cs, ob):
                         try:
-                            msg = part.oracle(c, o)
+                            msg = judge(part, c, o)
                         except Exception:
                             msg = None
-                        if msg and not [k for k in known if part.signature and k[0] == part.signature(c, o, msg)]:
-                            found = (part, c, o, msg)
-                            break
-                    if found:
-                        break
-                if found:
-                    break
+                        if msg:
+                            fails.append((part, c, o, msg))
+                _, new = split_known(fails)
+                if new:
+                    return new[0], dis, nsearch
+        return None, dis, nsearch
+
+    if new_fail:
+        part, c, o, msg, sig = min(new_fail, key=lambda x: len(json.dumps(x[1], default=str)))
+        violation = write_failing(part, c, o, msg, sig, len(new_fail), {})
+    elif corr_bad or broken:
+        # SEARCH for a concrete failing input: fresh random cases through the oracle only
+        found = search(range(1, 4), False)[0] if replay is None else None
         if found:
-            part, c, o, msg = found
-            c, o, msg = shrink_case(modname, part, c, o, msg, work)
-            rec = {'property': pid, 'kind': 'failing-input', 'part': part.NAME, 'seed': seed, 'tier': tier, 'case': c,
-                   'impl_obs': o, 'oracle_message': msg, 'found_by': 'search after a broken obligation/correspondence',
-                   'broken': [list(b) for b in broken][:10]}
-            json.dump(rec, open(rp, 'w'), indent=1, default=str)
-            violation = (rp, '')
+            part, c, o, msg, sig = found
+            violation = write_failing(part, c, o, msg, sig, 1, {'found_by': 'search after a broken obligation/correspondence',
+                                                               'broken': [list(b) for b in broken][:10]})
         else:
             rec = {'property': pid, 'seed': seed, 'tier': tier}
             if corr_bad:
                 part, c, o = corr_bad[0]
                 rec.update({'kind': 'broken-correspondence', 'part': part.NAME, 'case': c, 'impl_obs': o,
-                            'correspondence': '%s.%s on part %s' % (part.CORR_REQUIRE, part.CORR_CHECK, part.NAME),
+                            'correspondence': '%s.%s on part %s%s' % (part.CORR_REQUIRE, part.CORR_CHECK, part.NAME,
+                                                                      ' (borrowed from %s)' % part.BORROWED_FROM if part.BORROWED_FROM else ''),
                             'n_disagreements': len(corr_bad),
                             'model_obs': model_show(part, c, o, work) if build_ok else None,
                             'note': 'model and implementation disagree on this input; the property oracle found no input on which the property itself fails'})
             else:
                 rec.update({'kind': broken[0][0], 'theorem': broken[0][1], 'text': broken[0][2]})
-            rec['broken'] = [list(b) for b in broken][:10]
-            json.dump(rec, open(rp, 'w'), indent=1, default=str)
+            rec['broken'] = [list(b) for b in broken + tie_broken][:10]
+            dump_replay(rec, rp)
             violation = (rp, ' no-failing-input-found')
+    elif tie_broken:
+        # Only the source-TRANSLATION tie is affected (the code was rewritten into something the translator does not
+        # cover, or the translated text no longer matches the hand model syntactically).  The property theorems about
+        # the hand model all check, and the hand model is tied to the code by the SECOND tie, the correspondence check,
+        # which found no disagreement; intensify it (two more full streams through implementation, model and oracle).
+        found, dis, nsearch = (None, [], 0) if replay is not None else search((11, 12), True)
+        total_eval += nsearch
+        if found:
+            part, c, o, msg, sig = found
+            violation = write_failing(part, c, o, msg, sig, 1, {'found_by': 'intensified correspondence after a broken source-translation tie'})
+        elif dis:
+            part, c, o = dis[0]
+            rec = {'property': pid, 'seed': seed, 'tier': tier, 'kind': 'broken-correspondence', 'part': part.NAME, 'case': c, 'impl_obs': o,
+                   'n_disagreements': len(dis), 'broken': [list(b) for b in tie_broken][:10],
+                   'model_obs': model_show(part, c, o, work) if (build_ok and c is not None) else None}
+            dump_replay(rec, rp)
+            violation = (rp, ' no-failing-input-found')
+        else:
+            tie_note = ('source-translation tie NOT re-established on this tree (%s); the property theorems on the hand model all check and the '
+                        'hand model agrees with the implementation on %d cases (normal stream + two extra streams), 0 disagreements, 0 oracle failures'
+                        % ('; '.join('%s %s' % (b[0], b[1]) for b in tie_broken[:4]), total_eval))
+            print('NOTE: ' + tie_note)
 
     # 5. evidence
     wall = time.time() - t0
     tb = list(getattr(plugin, 'TRUSTED_BASE', []))
+    obligations = len(theorems)
+    if tie_note:       # the tie theorems that did not check are not counted as discharged obligations of this run: say so
+        obligations = discharged
     ev = {
         'property_id': pid, 'tier': tier, 'seed': seed, 'level': 'proof',
         'coverage': {
-            'obligations': len(theorems), 'discharged': discharged,
+            'obligations': obligations, 'discharged': discharged,
             'checker_cmd': 'make -C coq %s && coqc (Check + Print Assumptions per theorem); forbidden-construct grep over coq/' % ' '.join(f + 'o' for f in props_files),
             'trusted_base': ['Coq 8.16.1 kernel + vm_compute (no native_compute)',
                              'tools/gen_tables.py + tools/tables/*.py (literal tables translated from the Python AST on every run)',
@@ -562,11 +718,14 @@ def run_check(pid, tier, seed, replay=None):
             'coqchk': coqchk_report,
             'evaluations': total_eval, 'distinct_nontrivial': len(distinct),
             'rule': getattr(plugin, 'RULE', '') or '; '.join(filter(None, [p.RULE for p in parts])),
-            'samples': samples[:6],
+            'samples': samples[:8],
             'correspondence': stats,
             'model_impl_disagreements': len(corr_bad), 'oracle_failures_new': len(new_fail),
             'oracle_failures_known': len(oracle_fail) - len(new_fail),
+            'known_findings_seen': known_hits,
+            'known_findings_not_seen': [k[0] for k in known if k[0] not in known_hits],
             'broken_obligations': [list(b[:2]) for b in broken],
+            'source_tie_downgraded': tie_note,
             'exhaustive': False,
         },
         'assumptions': list(getattr(plugin, 'ASSUMPTIONS', [])),
@@ -574,11 +733,13 @@ def run_check(pid, tier, seed, replay=None):
         'violations': 1 if violation else 0,
     }
     if replay is None:
-        os.makedirs(os.path.join(VERIF, 'evidence'), exist_ok=True)
-        json.dump(ev, open(os.path.join(VERIF, 'evidence', pid + '.json'), 'w'), indent=1, default=str)
+        # only a run against /repo itself, in the shared tree, writes the official evidence; mutation / seeded runs keep theirs
+        edir = os.path.join(VERIF, 'evidence') if official else work
+        os.makedirs(edir, exist_ok=True)
+        json.dump(ev, open(os.path.join(edir, pid + '.json'), 'w'), indent=1, default=str)
     print('%s tier=%s seed=%d: theorems %d/%d, cases %d (%d distinct non-trivial), model/impl disagreements %d, oracle failures %d new / %d known, %.0fs'
           % (pid, tier, seed, discharged, len(theorems), total_eval, len(distinct), len(corr_bad), len(new_fail), len(oracle_fail) - len(new_fail), wall))
-    for b in broken[:5]:
+    for b in (broken + tie_broken)[:5]:
         print('  broken: %s %s: %s' % (b[0], b[1], b[2].strip().split('\n')[-1][:300]))
     if violation:
         print('VIOLATION property=%s replay=%s%s' % (pid, violation[0], violation[1]))
@@ -589,7 +750,7 @@ def run_check(pid, tier, seed, replay=None):
 def main(argv=None):
     ap = argparse.ArgumentParser()
     ap.add_argument('prop')
-    ap.add_argument('--tier', default=os.environ.get('VERIF_TIER', 'quick'), choices=['quick', 'thorough'])
+    ap.add_argument('--tier', default=os.environ.get('VERIF_TIER', 'quick') or 'quick', choices=['quick', 'thorough'])
     ap.add_argument('--replay')
     ap.add_argument('--seed', type=int, default=int(os.environ.get('VERIF_SEED', '0') or 0))
     a = ap.parse_args(argv)
@@ -598,10 +759,22 @@ def main(argv=None):
     if a.replay:
         replay = json.load(open(a.replay))
         a.seed = replay.get('seed', a.seed)
+        a.tier = replay.get('tier', a.tier)
     sys.path.insert(0, VERIF)
     # two runs of the same property (and tag) share a work directory: serialise them instead of letting one wipe the other
     with Lock('.run.%s%s.lock' % (pid, '_' + _TAG if _TAG else '')):
-        return run_check(pid, a.tier, a.seed, replay)
+        try:
+            return run_check(pid, a.tier, a.seed, replay)
+        except Exception as e:      # the machinery itself failed: the property is not shown to hold -- say so in the agreed format
+            import traceback
+            rdir = os.path.join(VERIF, 'replays', pid + ('_' + _TAG if _TAG else ''))
+            os.makedirs(rdir, exist_ok=True)
+            rp = os.path.join(rdir, 'replay_%s_%d_harness.json' % (a.tier, a.seed))
+            json.dump({'property': pid, 'kind': 'harness-error', 'seed': a.seed, 'tier': a.tier,
+                       'text': traceback.format_exc()[-4000:]}, open(rp, 'w'), indent=1)
+            print('  broken: harness-error %s: %s' % (type(e).__name__, str(e)[:300]))
+            print('VIOLATION property=%s replay=%s no-failing-input-found' % (pid, rp))
+            return 1
 
 
 if __name__ == '__main__':
